@@ -28,7 +28,41 @@ type c06Schema struct {
 	Consts map[string][]any // per column: constants used in predicates (domain + off-domain neighbours)
 	Dom    map[string][]any // per column: values stored in rows
 	Fixed  [][][]any        // adversarial table contents
+	// Prepared: contents reached through a history (rows inserted, then statements applied): heaps with an
+	// emptied head / middle / tail page, reused slots, index nodes emptied and removed, mass key changes
+	Prepared []c06Prepared
 }
+
+type c06Prepared struct {
+	Rows [][]any
+	Prep []*Stmt
+}
+
+// c06Content is one table content: rows inserted in one statement, then (PrepIdx >= 0) the statements of
+// sc.Prepared[PrepIdx].Prep.
+type c06Content struct {
+	Rows    [][]any
+	PrepIdx int
+}
+
+func (ct c06Content) prep(sc *c06Schema) []*Stmt {
+	if ct.PrepIdx < 0 {
+		return nil
+	}
+	return sc.Prepared[ct.PrepIdx].Prep
+}
+
+func (ct c06Content) describe(sc *c06Schema) string {
+	s := shortRows(ct.Rows)
+	for _, st := range ct.prep(sc) {
+		s += "; then " + shortSQL(st.SQL())
+	}
+	return s
+}
+
+// c06Wide(i): 590-byte strings, distinct per i, sorting between '' and 'a'
+func c06Wide(i int) string { return fmt.Sprintf("%s%03d", strings.Repeat("W", 587), i) }
+
 
 func c06Schemas() []*c06Schema {
 	i := func(v int) any { return int32(v) }
@@ -58,6 +92,26 @@ func c06Schemas() []*c06Schema {
 			{{i(1), s("")}, {i(2), s("a")}, {i(3), s("a")}, {i(4), s("it's")}, {i(5), s("a b")}},
 			{{i(1), s(long)}, {i(2), s(long + "x")}, {i(3), s(long)}, {i(4), s("z")}, {i(5), s(long)}, {i(6), s(long)}, {i(7), s(long)}, {i(8), s(long)}},
 		}}
+	// 14 wide rows = three heap pages (6+6+2 rows) and a multi-node index on s; a = 1 on the first page,
+	// 2 on the second, 3 on the third
+	var wide [][]any
+	for k := 0; k < 14; k++ {
+		wide = append(wide, []any{i(1 + k/6), s(c06Wide(k))})
+	}
+	del := func(p Pred) *Stmt { return &Stmt{Kind: "delete", Table: "t", Where: p} }
+	sStr.Prepared = []c06Prepared{
+		{wide, nil},
+		{wide, []*Stmt{del(Leaf{"a", "=", i(1)})}},  // head page emptied
+		{wide, []*Stmt{del(Leaf{"a", "=", i(2)})}},  // middle page emptied
+		{wide, []*Stmt{del(Leaf{"a", ">=", i(2)})}}, // everything after the head page emptied
+		{wide, []*Stmt{del(Leaf{"a", "=", i(1)}), {Kind: "insert", Table: "t", Cols: []string{"a", "s"}, Rows: [][]any{{i(1), s(c06Wide(50))}, {i(2), s("a")}, {i(1), s(c06Wide(3))}}}}}, // slots of the emptied page reused
+		{wide, []*Stmt{{Kind: "update", Table: "t", Set: []SetItem{{"s", s(c06Wide(99))}}, Where: Leaf{"a", "=", i(2)}}}},                                                                     // six index entries move to one key
+		{wide, []*Stmt{del(Leaf{"a", "<=", i(3)}), {Kind: "insert", Table: "t", Cols: []string{"a", "s"}, Rows: [][]any{{i(2), s("ab")}}}}},                                                  // table emptied, then one row
+	}
+	sInt.Prepared = []c06Prepared{
+		{[][]any{{i(1), i(10)}, {i(2), i(20)}, {i(3), i(10)}}, []*Stmt{del(Leaf{"a", "<=", i(3)}), {Kind: "insert", Table: "t", Cols: []string{"a", "b"}, Rows: [][]any{{i(2), i(10)}, {i(2), i(20)}}}}},
+		{[][]any{{i(1), i(10)}, {i(2), i(20)}, {i(3), i(10)}}, []*Stmt{{Kind: "update", Table: "t", Set: []SetItem{{"a", i(2)}}, Where: Leaf{"b", "=", i(10)}}}},
+	}
 	return []*c06Schema{sInt, sFloat, sStr}
 }
 
@@ -208,7 +262,8 @@ type c06Env struct {
 	dir   string
 }
 
-func c06Open(sc *c06Schema, rows [][]any) *c06Env {
+func c06Open(sc *c06Schema, ct c06Content) *c06Env {
+	rows := ct.Rows
 	e := &c06Env{sc: sc, model: NewModel()}
 	e.dir = NewDir("c06")
 	db, f := OpenDB(e.dir+"/d", 128)
@@ -239,6 +294,12 @@ func c06Open(sc *c06Schema, rows [][]any) *c06Env {
 			cols = append(cols, c.Name)
 		}
 		e.model.Apply(0, &Stmt{Kind: "insert", Table: "t", Cols: cols, Rows: rows})
+	}
+	for _, st := range ct.prep(sc) {
+		if r := db.Auto(st.SQL()); r.Fail != nil || r.Err != "" || r.Aborted {
+			panic(fmt.Sprintf("preparing statement %s failed: %+v", shortSQL(st.SQL()), r))
+		}
+		e.model.Apply(0, st)
 	}
 	return e
 }
@@ -356,11 +417,11 @@ func c06Run(c *core.Ctx) {
 	res.Bound["multiset_rows"] = maxRows
 	res.Bound["predicate_leaves"] = maxLeaves
 	item := 0
-	viol := func(sc *c06Schema, content [][]any, v *c06Verdict, stmt string) {
+	viol := func(sc *c06Schema, content c06Content, v *c06Verdict, stmt string) {
 		res.Outcome("VIOLATION:" + v.clause)
 		res.Violate(&core.Violation{Property: "C06", Signature: "sql/" + v.clause,
-			Detail: fmt.Sprintf("schema %s, table contents %v\n%s", sc.Name, shortRows(content), v.detail),
-			Replay: map[string]any{"schema": sc.Name, "rows": content, "sql": stmt}})
+			Detail: fmt.Sprintf("schema %s, table contents %v\n%s", sc.Name, content.describe(sc), v.detail),
+			Replay: map[string]any{"schema": sc.Name, "rows": content.Rows, "prepared": content.PrepIdx, "sql": stmt}})
 	}
 	for _, sc := range c06Schemas() {
 		// literal acceptance pre-pass
@@ -372,7 +433,7 @@ func c06Run(c *core.Ctx) {
 				accept[col.Name+"|"+fmt.Sprint(k)] = ok && altered == ""
 				acceptTable = append(acceptTable, fmt.Sprintf("%s %s: accepted=%v %s", col.Name, firstN(Lit(k), 20), ok, altered))
 				if altered != "" && c.Shard == 0 {
-					viol(sc, nil, &c06Verdict{"literal-altered/" + litClass(k), altered}, "")
+					viol(sc, c06Content{nil, -1}, &c06Verdict{"literal-altered/" + litClass(k), altered}, "")
 				}
 			}
 		}
@@ -385,7 +446,7 @@ func c06Run(c *core.Ctx) {
 				acceptTable = append(acceptTable, fmt.Sprintf("%s %s: VALUES accepted=%v %s; SET accepted=%v %s", col.Name, firstN(Lit(k), 20), okV, altV, okS, altS))
 				for _, alt := range []string{altV, altS} {
 					if alt != "" && c.Shard == 0 {
-						viol(sc, nil, &c06Verdict{"literal-altered/" + litClass(k), alt}, "")
+						viol(sc, c06Content{nil, -1}, &c06Verdict{"literal-altered/" + litClass(k), alt}, "")
 					}
 				}
 				if okV && okS && altV == "" && altS == "" {
@@ -413,9 +474,15 @@ func c06Run(c *core.Ctx) {
 		}
 		preds := c06Preds(okLeaves, maxLeaves, few)
 		single := c06Preds(okLeaves, 1, nil)
-		contents := append([][][]any{}, sc.Fixed...)
+		var contents []c06Content
+		for _, f := range sc.Fixed {
+			contents = append(contents, c06Content{f, -1})
+		}
+		for k, pr := range sc.Prepared {
+			contents = append(contents, c06Content{pr.Rows, k})
+		}
 		small := c06Multisets(sc, maxRows)
-		res.Bound["contents["+sc.Name+"]"] = fmt.Sprintf("%d adversarial + %d multisets; %d predicates (all trees <= %d leaves over %d leaves)", len(sc.Fixed), len(small), len(preds), maxLeaves, len(okLeaves))
+		res.Bound["contents["+sc.Name+"]"] = fmt.Sprintf("%d adversarial + %d prepared by a history + %d multisets; %d predicates (all trees <= %d leaves over %d leaves)", len(sc.Fixed), len(sc.Prepared), len(small), len(preds), maxLeaves, len(okLeaves))
 		var colNames []string
 		for _, cd := range sc.Def.Cols {
 			colNames = append(colNames, cd.Name)
@@ -424,7 +491,7 @@ func c06Run(c *core.Ctx) {
 		// (1) adversarial contents x all predicates;  (2) all small multisets x single-leaf predicates and a
 		// stride of the 2-leaf ones
 		type job struct {
-			rows  [][]any
+			rows  c06Content
 			preds []Pred
 		}
 		var jobs []job
@@ -436,7 +503,7 @@ func c06Run(c *core.Ctx) {
 			for j := i % 7; j < len(preds); j += 7 {
 				ps = append(ps, preds[j])
 			}
-			jobs = append(jobs, job{ct, ps})
+			jobs = append(jobs, job{c06Content{ct, -1}, ps})
 		}
 		for _, jb := range jobs {
 			item++
@@ -527,7 +594,7 @@ func extraLits(t ColType) []any {
 
 // c06DML runs UPDATE / DELETE / INSERT statements, each on a fresh database holding rows, and compares
 // the table afterwards (through a scan-path read) with the model.
-func c06DML(c *core.Ctx, sc *c06Schema, rows [][]any, leaves []Pred, dmlVals map[string][]any, viol func(*c06Schema, [][]any, *c06Verdict, string)) {
+func c06DML(c *core.Ctx, sc *c06Schema, rows c06Content, leaves []Pred, dmlVals map[string][]any, viol func(*c06Schema, c06Content, *c06Verdict, string)) {
 	res := c.Res
 	cols := sc.Def.Cols
 	var stmts []*Stmt
@@ -647,6 +714,7 @@ func c06Replay(raw json.RawMessage) (string, bool) {
 	var rp struct {
 		Schema string  `json:"schema"`
 		Rows   [][]any `json:"rows"`
+		Prep   *int    `json:"prepared"`
 		SQL    string  `json:"sql"`
 	}
 	json.Unmarshal(raw, &rp)
@@ -670,6 +738,10 @@ func c06Replay(raw json.RawMessage) (string, bool) {
 			}
 			rows = append(rows, row)
 		}
+		ct := c06Content{rows, -1}
+		if rp.Prep != nil {
+			ct.PrepIdx = *rp.Prep
+		}
 		leaves := c06Leaves(sc, func(v any) bool { return true })
 		var few []Pred
 		for i, l := range leaves {
@@ -689,20 +761,20 @@ func c06Replay(raw json.RawMessage) (string, bool) {
 				if sel.SQL() != rp.SQL {
 					continue
 				}
-				env := c06Open(sc, rows)
+				env := c06Open(sc, ct)
 				defer env.Close()
 				if v := env.runSelect(sel, res); v != nil {
-					return fmt.Sprintf("schema %s rows %v\n%s: %s", sc.Name, rows, v.clause, v.detail), true
+					return fmt.Sprintf("schema %s rows %v\n%s: %s", sc.Name, ct.describe(sc), v.clause, v.detail), true
 				}
-				return fmt.Sprintf("schema %s rows %v\n%s -> agrees with the model under every plan", sc.Name, rows, rp.SQL), false
+				return fmt.Sprintf("schema %s rows %v\n%s -> agrees with the model under every plan", sc.Name, ct.describe(sc), rp.SQL), false
 			}
 		}
 		// DML: run it and compare the table afterwards
 		bad := false
 		var out string
 		ctx := &core.Ctx{Prop: "C06", Tier: "thorough", Shard: 0, Of: 1, Deadline: time.Now().Add(time.Minute), Res: res}
-		c06DML(ctx, sc, rows, leaves, map[string][]any{sc.Def.Cols[0].Name: extraLits(sc.Def.Cols[0].Type), sc.Def.Cols[1].Name: extraLits(sc.Def.Cols[1].Type)},
-			func(_ *c06Schema, _ [][]any, v *c06Verdict, stmt string) {
+		c06DML(ctx, sc, ct, leaves, map[string][]any{sc.Def.Cols[0].Name: extraLits(sc.Def.Cols[0].Type), sc.Def.Cols[1].Name: extraLits(sc.Def.Cols[1].Type)},
+			func(_ *c06Schema, _ c06Content, v *c06Verdict, stmt string) {
 				if stmt == rp.SQL {
 					bad = true
 					out = v.clause + ": " + v.detail
@@ -711,7 +783,7 @@ func c06Replay(raw json.RawMessage) (string, bool) {
 		if bad {
 			return out, true
 		}
-		return "statement " + rp.SQL + " on " + fmt.Sprint(rows) + ": no disagreement with the model", false
+		return "statement " + rp.SQL + " on " + ct.describe(sc) + ": no disagreement with the model", false
 	}
 	return "unknown schema " + rp.Schema, false
 }
